@@ -1106,12 +1106,9 @@ func guardFixer(c *Ctx) {
 					if cd.Kind != core.CondBool {
 						continue
 					}
-					ast.Inspect(cd.Expr, func(m ast.Node) bool {
-						if sel, ok := m.(*ast.SelectorExpr); ok && core.ObjOf(info, sel.X) == p0 && core.FieldOf(info, sel) != nil && sel.Sel.Name != own {
-							foreign = append(foreign, exprStr(cd.Expr))
-						}
-						return true
-					})
+					if divergesFrom(c, fi, info, cd.Expr, p) {
+						foreign = append(foreign, exprStr(cd.Expr))
+					}
 				}
 				ordCall++
 				c.S.Decide(len(foreign) == 0, "C19", "GUARD-SECTIONS", fmt.Sprintf("%s/call#%d %s", fi.QName(), ordCall, own), c.P.Pos(call.Pos()),
@@ -1129,18 +1126,14 @@ func guardFixer(c *Ctx) {
 			if p == nil || p.Root != p0 || len(p.Steps) == 0 || p.Steps[0].Field == nil {
 				return true
 			}
-			own := p.Steps[0].Name
 			var foreign []string
 			for _, cd := range c.conds(fi, rs) {
 				if cd.Kind != core.CondBool {
 					continue
 				}
-				ast.Inspect(cd.Expr, func(m ast.Node) bool {
-					if sel, ok := m.(*ast.SelectorExpr); ok && core.ObjOf(info, sel.X) == p0 && core.FieldOf(info, sel) != nil && sel.Sel.Name != own {
-						foreign = append(foreign, exprStr(cd.Expr))
-					}
-					return true
-				})
+				if divergesFrom(c, fi, info, cd.Expr, p) {
+					foreign = append(foreign, exprStr(cd.Expr))
+				}
 			}
 			c.S.Decide(len(foreign) == 0, "C19", "GUARD-SECTIONS", fi.QName()+"/range "+exprStr(rs.X), c.P.Pos(rs.Pos()),
 				"this section is walked whatever the other sections contain",
@@ -1153,6 +1146,28 @@ func guardFixer(c *Ctx) {
 	} else {
 		c.S.Hold("C19", "GUARD-DESC", "single-store", "-", "exactly one store to Response.Description")
 	}
+}
+
+// divergesFrom reports whether cond reads a part of the object that target belongs to which is neither an ancestor
+// of target nor below it: `v.Ref.String() != ""` for the target `v.Get.Responses` (a sibling part), but not
+// `v.Get != nil` or `s.Paths != nil` (ancestors) nor `len(v.Get.Responses.StatusCodeResponses) > 0` (below).
+func divergesFrom(c *Ctx, fi *core.FuncInfo, info *types.Info, cond ast.Expr, target *core.Path) bool {
+	div := false
+	ast.Inspect(cond, func(m ast.Node) bool {
+		sel, ok := m.(*ast.SelectorExpr)
+		if !ok || core.FieldOf(info, sel) == nil {
+			return true
+		}
+		q := c.P.PathOf(fi, sel, true)
+		if q == nil || q.Root == nil || q.Root != target.Root {
+			return true
+		}
+		if !target.HasPrefix(q) && !q.HasPrefix(target) {
+			div = true
+		}
+		return true
+	})
+	return div
 }
 
 // pathSum counts two kinds of events along one structured path.
